@@ -28,7 +28,7 @@ ASSUMPTIONS = ['cookie_threshold is lowered through the controller attribute the
                'the secret is unknown to the harness: binding is tested by equality / inequality of cookies across requests']
 EXPECT_REACH = ['regime_reached', 'probe.no_cookie', 'probe.same_again', 'probe.other_spi', 'probe.other_nonce', 'probe.other_addr',
                 'probe.corrupted', 'probe.no_cookie_ke_mismatch', 'probe.no_cookie_bad_proposal', 'probe.replay_other_spi', 'probe.replay_other_nonce', 'probe.replay_other_addr', 'probe.correct',
-                'probe.below_threshold', 'honest_retry_checked', 'honest_retry_retransmission_checked', 'honest_established']
+                'probe.below_threshold', 'honest_retry_checked', 'honest_retry_retransmission_checked', 'secret_rotated_after_challenge', 'honest_established']
 
 
 def build_init(conn, spi_i, nonce, ke_x, cookies=(), cookie_pos=0, group=None, odd=None):
@@ -259,7 +259,12 @@ def generate(seed, tier):
     sc['probe_flow'] = flow
     sc['until'] = 16.0
     sc['quiet_from'] = 16.0
-    if r.random() < 0.3:
+    if r.random() < 0.25:
+        # the responder renews its cookie secret right after challenging the honest initiator: the retry is challenged again, and the second
+        # retry (this implementation stacks the new cookie in front of the old one) must be accepted
+        sc['rotate_secret'] = True
+        sc['meta']['rotate_secret'] = True
+    elif r.random() < 0.3:
         # the honest initiator's second datagram (the cookie-bearing retry when it was challenged, else its IKE_AUTH request) is lost: it has to
         # come again, identical, from the retransmission timer (2 s later) and the exchange still completes
         sc.setdefault('fates', {})['A#2'] = {'fate': 'drop'}
@@ -292,6 +297,26 @@ def run(scenario):
             if w.nodes['A'].state == 'running' and w.nodes['B'].state == 'running':
                 ctx['honest'] = data_plane_probe(w, 'A', 'B', scenario['probe_flow'])
         ctx['handlers'] = {'cookie_probe': pr.probe, 'honest_check': honest_check}
+        if scenario.get('rotate_secret'):
+            class Rotator:
+                done = False
+
+                def on_wire(self, meta, data):
+                    if self.done or meta['sender'] != 'B' or meta['dst'] != scenario['meta']['a_addr']:
+                        return
+                    try:
+                        h, pls = R.decode(data)
+                    except R.DecodeError:
+                        return
+                    if h['exch'] == 34 and h['R'] and pls and pls[0]['type'] == R.P_NOTIFY and pls[0].get('ntype') == R.N_COOKIE:
+                        ctl = w.nodes['B'].controller
+                        if ctl is not None:
+                            self.done = True
+                            rr = random.Random(f'rotate:{scenario.get("seed")}')
+                            ctl.cookie_secret = bytes(rr.getrandbits(8) for _ in range(8))
+                            pr._r('secret_rotated_after_challenge')
+                            w.record(('rotate_secret',))
+            w.net.taps.append(Rotator())
 
     def at_end(w, ctx):
         pr = ctx['prober']
